@@ -5,7 +5,7 @@
      component ::= alnum+ ( separator alnum+ )*
      separator ::= '.' | '_' | '__' | '-'+
      alnum     ::= [a-z0-9]                                                            *)
-From Oras Require Import Base.Prelude Base.Regex Generated.GC20 Model.Reference.
+From Oras Require Import Base.Prelude Base.Regex Generated.GC20 Model.Reference Proofs.Reference.
 
 (* ---------- the documented rule ---------- *)
 
@@ -158,4 +158,29 @@ Proof.
     inversion F; subst.
   - exists x, a. auto.
   - exists x, (a ++ sep ++ c'). auto.
+Qed.
+
+(* ---------- digest rule (go-digest v1.0.0), stated without the parser's helper functions ----------
+   <algorithm> ':' <encoded>, the algorithm one of the table AND linked into the binary, the
+   encoded part lower-case hex of exactly the algorithm's length *)
+Theorem digest_grammar avail s :
+  valid_digest avail s = true <->
+  exists alg n enc, In (alg, n) alg_table /\ avail alg = true /\ s = alg ++ [c_colon] ++ enc /\
+                    length enc = n /\ Forall (fun c => hexlower c = true) enc.
+Proof.
+  unfold valid_digest. split.
+  - destruct (split_first c_colon s) as [[alg enc]|] eqn:E; [|discriminate].
+    apply split_first_Some in E as [-> _].
+    destruct (find _ alg_table) as [[a' n]|] eqn:F; [|discriminate].
+    apply find_some in F as [Fin Feq]. simpl in Feq. apply str_eqb_spec in Feq. subst a'.
+    intro H. apply andb_true_iff in H as [H H3]. apply andb_true_iff in H as [H1 H2].
+    exists alg, n, enc. repeat split; auto.
+    + now apply Nat.eqb_eq.
+    + now apply forallb_forall_Forall || (apply Forall_forall; now apply forallb_forall).
+  - intros (alg & n & enc & Hin & Ha & -> & Hl & Hf).
+    assert (Hx : forallb hexlower enc = true) by (apply forallb_forall; now apply Forall_forall).
+    change (alg ++ [c_colon] ++ enc) with (alg ++ c_colon :: enc).
+    simpl in Hin. destruct Hin as [Hin|[Hin|[Hin|[]]]]; injection Hin as <- <-;
+      (rewrite split_first_app by reflexivity); vm_compute (find _ _);
+      rewrite Ha, Hx, <- Hl, Nat.eqb_refl; reflexivity.
 Qed.
